@@ -1,10 +1,10 @@
 """Read path and lifecycle family: C02 (inbound delivery integrity), C03 (connection lifecycle, dial result)."""
 
 READ_RUN = {"harness": "hread", "driver": "gatedrv", "fields": None, "corpus": "life",
-            "quick": {"n": 150, "shards": 16}, "thorough": {"n": 2500, "shards": 32}}
+            "quick": {"n": 500, "shards": 16}, "thorough": {"n": 2500, "shards": 32}}
 
 LIFE_RUN = {"harness": "hlife", "driver": "lifedrv", "fields": None, "corpus": "life3",
-            "quick": {"n": 120, "shards": 16}, "thorough": {"n": 1500, "shards": 32}}
+            "quick": {"n": 250, "shards": 16}, "thorough": {"n": 1500, "shards": 32}}
 
 PROPS = {
     "C02": {
